@@ -1,0 +1,13 @@
+//go:build verif
+
+package cache
+
+// VerifC01DropQueueLen exports the number of drop decisions still waiting in the cuckoo filter's
+// add queue (they become visible to CheckTrace only after the drain goroutine has inserted them).
+// The collector driver waits for 0 so that its CheckTrace observation is stable.
+func VerifC01DropQueueLen(c TraceSentCache) int {
+	if cc, ok := c.(*cuckooSentCache); ok {
+		return len(cc.dropped.addch)
+	}
+	return 0
+}
